@@ -4,3 +4,4 @@ import Juniper.Props.C15Deque
 import Juniper.Props.C19
 import Juniper.Props.C10
 import Juniper.Props.C10Chan
+import Juniper.Props.C12
